@@ -6,6 +6,9 @@
 (*     pl   TRUE iff the primitive-level grant is observable (Resource:     *)
 (*          future.is_resolved; limiters: return value); otherwise the      *)
 (*          grant is seen when the acquiring process resumes ("got"),       *)
+(*     full TRUE: all clauses + model following; FALSE: counting clauses    *)
+(*          only (ThreadPool's worker slots, PreemptibleResource with        *)
+(*          priorities/preemption, whose queueing discipline is not FIFO),   *)
 (*     log  << <<op, r, a, m, flag, avail, nwait>>, ... >> ]                 *)
 (* r = request id (1..nr, in request order), a = amount, m = mode,          *)
 (* avail / nwait = the primitive's public counters sampled after the step.  *)
@@ -41,7 +44,7 @@ MH0(T) == [r \in R(T) |-> 0]
 O0(T) == [am |-> [r \in R(T) |-> 0], md |-> [r \in R(T) |-> "x"], ph |-> [r \in R(T) |-> "idle"],
           border |-> <<>>, streak |-> 0]
 V0 == [prop |-> "", ppos |-> 0, drift |-> "", dpos |-> 0]
-Dummy == [id |-> 0, kind |-> "fifo", cap |-> 1, qmax |-> 0, nr |-> 0, pl |-> FALSE, log |-> <<>>]
+Dummy == [id |-> 0, kind |-> "fifo", cap |-> 1, qmax |-> 0, nr |-> 0, pl |-> FALSE, full |-> TRUE, log |-> <<>>]
 T1 == IF NT = 0 THEN Dummy ELSE Traces[1]
 
 Init == ti = 1 /\ l = 1 /\ p = P0(T1) /\ mh = MH0(T1) /\ o = O0(T1) /\ v = V0
@@ -69,6 +72,8 @@ ObsStep(oo, T, rec) ==
 BlockedWaiting(oo) == { i \in 1..Len(oo.border) : oo.ph[oo.border[i]] = "wait" }
 GrantedIdx(oo) == { i \in 1..Len(oo.border) : oo.ph[oo.border[i]] \in {"held", "done"} }
 FifoOk(oo) == \A i \in BlockedWaiting(oo) : \A j \in GrantedIdx(oo) : j < i
+\* r was just re-delivered and is still blocked although a later-queued request has been granted
+PolledBehind(oo, r) == \E i \in BlockedWaiting(oo) : oo.border[i] = r /\ \E j \in GrantedIdx(oo) : j > i
 OldestWaitingIdx(oo) == CHOOSE i \in BlockedWaiting(oo) : \A k \in BlockedWaiting(oo) : i <= k
 Need(oo, T, r) == IF T.kind = "rwlock" /\ oo.md[r] = "r" THEN 1 ELSE oo.am[r]
 
@@ -76,7 +81,11 @@ Contract(o0, oo, T, rec) ==
     LET op == rec[1]  r == rec[2]  avail == rec[6]
         H == Held(oo, T)
         held == Sum(oo.am, H)
-        boundary == op \in {"q", "end"} \/ (op = "d" /\ T.pl)
+        frozen == op = "poll" /\ oo.streak > 2 * T.nr + 2
+        \* points at which the observed holders are exactly the primitive's holders: end of an instant,
+        \* end of a delivery when grants are observed at primitive level, and a detected poll cycle
+        \* (every blocked process has looked at its wake-up flag since the last change)
+        boundary == op \in {"q", "end"} \/ (op = "d" /\ T.pl) \/ frozen
     IN IF op = "grant" /\ T.pl /\ o0.ph[r] = "held" THEN "PROP:granted_twice"
        ELSE IF held > T.cap THEN "PROP:over_admit"
        ELSE IF T.kind = "rwlock" /\ \E w \in H : oo.md[w] = "w" /\ H # {w} THEN "PROP:writer_not_exclusive"
@@ -84,12 +93,13 @@ Contract(o0, oo, T, rec) ==
        ELSE IF avail > T.cap THEN "PROP:available_above_capacity"
        ELSE IF held + avail > T.cap THEN "PROP:held_plus_available_above_capacity"
        ELSE IF boundary /\ held + avail # T.cap THEN "PROP:held_plus_available_below_capacity"
-       ELSE IF (boundary \/ op = "poll") /\ ~FifoOk(oo) THEN "PROP:fifo_order"
-       ELSE IF boundary /\ BlockedWaiting(oo) # {}
+       ELSE IF T.full /\ boundary /\ ~FifoOk(oo) THEN "PROP:fifo_order"
+       ELSE IF T.full /\ op = "poll" /\ PolledBehind(oo, r) THEN "PROP:fifo_order"
+       ELSE IF T.full /\ boundary /\ BlockedWaiting(oo) # {}
                /\ avail >= Need(oo, T, oo.border[OldestWaitingIdx(oo)])
             THEN "PROP:waiter_not_granted_when_capacity_allows"
-       ELSE IF op = "poll" /\ oo.streak > 2 * T.nr + 2 THEN "PROP:clock_frozen_by_waiter"
-       ELSE IF op = "end" /\ \E x \in R(T) : oo.ph[x] = "wait" THEN "PROP:waiter_never_served"
+       ELSE IF frozen THEN "PROP:clock_frozen_by_waiter"
+       ELSE IF T.full /\ op = "end" /\ \E x \in R(T) : oo.ph[x] = "wait" THEN "PROP:waiter_never_served"
        ELSE ""
 
 \* ---- implementation-shaped model following ---------------------------------
@@ -139,8 +149,8 @@ StepRec ==
         rec == T.log[l]
         o1 == ObsStep(o, T, rec)
         cv == Contract(o, o1, T, rec)
-        ms == IF v.drift = "" THEN ModelStep(p, mh, o1, T, rec) ELSE [p |-> p, mh |-> mh, d |-> ""]
-        dv == IF v.drift # "" THEN ""
+        ms == IF v.drift = "" /\ T.full THEN ModelStep(p, mh, o1, T, rec) ELSE [p |-> p, mh |-> mh, d |-> ""]
+        dv == IF v.drift # "" \/ ~T.full THEN ""
               ELSE IF ms.d # "" THEN ms.d ELSE Counters(ms.p, rec)
     IN /\ o' = o1 /\ p' = ms.p /\ mh' = ms.mh
        /\ v' = [prop |-> cv, ppos |-> IF cv # "" THEN l ELSE 0,
